@@ -14,7 +14,7 @@ CFG = """SPECIFICATION Spec
 CONSTANTS
   Slots = {%s}
   ConstOps = {%s}
-  SetForms = {"cstr", "buflv", "bufrv", "std", "wide", "tobuffer", "extract"}
+  SetForms = {"cstr", "buflv", "bufrv", "std", "wide", "tobuffer", "extract", "fromvalidated", "substbad"}
   EmitEdges = TRUE
   WithFaults = %s
   WithThrows = TRUE
